@@ -466,6 +466,45 @@ func (e *Exec) applyContract(st *State, spec *FuncSpec, sig *types.Signature, pa
 		t := e.evalSpecBool(en, vars, st, old, "ensures of "+short)
 		e.assume(st, t)
 	}
+	// ghost clocks and ghost updates of the callee
+	for _, g := range spec.Advances {
+		if _, declared := st.ghost[g]; !declared {
+			continue // the function under verification does not track this ghost clock
+		}
+		if st.ghost == nil {
+			st.ghost = map[string]Value{}
+		} else {
+			ng := map[string]Value{}
+			for k, v := range st.ghost {
+				ng[k] = v
+			}
+			st.ghost = ng
+		}
+		oldv, ok := st.ghost[g].(Scalar)
+		nv := c.Fresh("ghost_"+g, smt.BV(64))
+		if ok {
+			e.assume(st, c.BVSle(oldv.T, nv))
+		}
+		// clock values are nanosecond instants well below 2^62
+		e.assume(st, c.BVSle(nv, c.BVC(1<<62, 64)))
+		st.ghost[g] = Scalar{T: nv, Typ: intTyp}
+	}
+	for _, gs := range spec.GhostSets {
+		if _, declared := st.ghost[gs.Name]; !declared {
+			continue
+		}
+		se := &specEnv{e: e, st: st, old: old, vars: vars, bound: map[string]Value{}, where: "ghostset of " + short}
+		v := se.eval(gs.Expr)
+		if u, ok := v.(Untyped); ok {
+			v = Scalar{T: bv64(c, u.V), Typ: intTyp}
+		}
+		ng := map[string]Value{}
+		for k, x := range st.ghost {
+			ng[k] = x
+		}
+		ng[gs.Name] = v
+		st.ghost = ng
+	}
 	if rec != nil {
 		rec.Post = st.clone()
 	}
@@ -793,6 +832,11 @@ func (e *Exec) invoke(st *State, recv *IfaceV, m *types.Func, args []Value, cc *
 		} else {
 			// interface-method contract
 			key := ifaceMethodKey(recv.Typ, m)
+			if key == "context.Context.Done" {
+				v = Scalar{T: c.App("ctx_done", refSort, c.App("if_ident", refSort, al.Opaque)), Typ: sig.Results().At(0).Type()}
+				brs = append(brs, branch{al.Cond, bs, v})
+				continue
+			}
 			spec := e.DB.Funcs[key]
 			if spec == nil {
 				e.refuse("no contract for interface method %s", key)
@@ -910,9 +954,63 @@ func (e *Exec) lookupType(s string) types.Type {
 
 // ---- select (only the retry loop uses it) ----
 
+// selectOp models  select { case <-ctx.Done(): ; case <-time.After(d): }
+// with a ghost clock (assumed timer / context semantics): the timer fires at
+// now+d, the context is done from `deadline` on, a blocking select returns at
+// the earlier of the two.
 func (e *Exec) selectOp(st *State, x *ssa.Select) Value {
-	e.refuse("select statement not supported")
-	return nil
+	c := e.C
+	if !x.Blocking || len(x.States) != 2 {
+		e.refuse("select: only a blocking two-way receive is modelled")
+	}
+	doneIdx, timerIdx := -1, -1
+	var d *smt.Term
+	for i, s := range x.States {
+		ch, ok := e.eval(st, s.Chan).(Scalar)
+		if !ok || ch.T.Op != "app" {
+			e.refuse("select on an unknown channel")
+		}
+		switch ch.T.Name {
+		case "ctx_done":
+			doneIdx = i
+		case "timer_after":
+			timerIdx = i
+			d = ch.T.Args[0]
+		}
+	}
+	if doneIdx < 0 || timerIdx < 0 {
+		e.refuse("select: expected <-ctx.Done() and <-time.After(d)")
+	}
+	e.Externs["ghost clock: time.After(d) fires d after the select starts, ctx.Done() is ready from the context deadline on, a blocking select returns at the earlier instant (assumed)"] = true
+	now, ok1 := st.ghost["now"].(Scalar)
+	dl, ok2 := st.ghost["deadline"].(Scalar)
+	if !ok1 || !ok2 {
+		e.refuse("select: ghost clock not initialised (context.WithTimeout not seen)")
+	}
+	idx := c.Fresh("select_idx", smt.BV(64))
+	isDone := c.Eq(idx, bv64(c, int64(doneIdx)))
+	isTimer := c.Eq(idx, bv64(c, int64(timerIdx)))
+	fire := c.BVAdd(now.T, d)
+	pos := c.BVSlt(bv64(c, 0), d)
+	e.assume(st, c.Or(isDone, isTimer))
+	// d > 0: timer only if it fires no later than the deadline; done only if the deadline is no later than the timer
+	e.assume(st, c.Implies(c.And(pos, isTimer), c.BVSle(fire, dl.T)))
+	e.assume(st, c.Implies(c.And(pos, isDone), c.BVSle(dl.T, fire)))
+	// d <= 0: the timer is ready at once; done only if the deadline has passed
+	e.assume(st, c.Implies(c.And(c.Not(pos), isDone), c.BVSle(dl.T, now.T)))
+	later := c.Ite(c.BVSlt(now.T, dl.T), dl.T, now.T)
+	newNow := c.Ite(isTimer, c.Ite(pos, fire, now.T), later)
+	ng := map[string]Value{}
+	for k, v := range st.ghost {
+		ng[k] = v
+	}
+	ng["now"] = Scalar{T: newNow, Typ: intTyp}
+	st.ghost = ng
+	tup := &TupleV{Vs: []Value{Scalar{T: idx, Typ: intTyp}, Scalar{T: c.Fresh("select_ok", smt.Bool), Typ: boolTyp}}}
+	for _, s := range x.States {
+		tup.Vs = append(tup.Vs, e.zero(s.Chan.Type().Underlying().(*types.Chan).Elem()))
+	}
+	return tup
 }
 
 // FuncKey is the exported form of funcKey.
